@@ -111,7 +111,7 @@ Proof.
   induction b; intros; cbn [read_vbi]; cbn; auto.
   destruct (21 <? mult); [exact I|].
   destruct (_ <? _); [exact I|].
-  destruct (_ =? 0); cbn; [lia|].
+  destruct (N.land a 128 =? 0); [destruct (_ && _); cbn; [exact I|lia]|].
   specialize (IHb (N.lor vbi (shl32 (N.land a 127) mult)) ((mult + 7) mod 4294967296)).
   destruct (read_vbi b _ _) as [[v r]| | |]; cbn in *; auto.
 Qed.
@@ -121,7 +121,7 @@ Proof.
   destruct b; intros; [exact I|]. cbn [read_vbi].
   destruct (21 <? mult); [exact I|].
   destruct (_ <? _); [exact I|].
-  destruct (_ =? 0); cbn; [lia|].
+  destruct (N.land n 128 =? 0); [destruct (_ && _); cbn; [exact I|lia]|].
   pose proof (read_vbi_safe b (N.lor vbi (shl32 (N.land n 127) mult)) ((mult + 7) mod 4294967296)) as Hs.
   destruct (read_vbi b _ _) as [[v r]| | |]; cbn in *; auto. lia.
 Qed.
@@ -135,8 +135,8 @@ Proof.
   induction b; intros vbi mult v r H; cbn [read_vbi] in H; [discriminate|].
   destruct (21 <? mult); [discriminate|].
   destruct (N.ltb_spec 268435455 (N.lor vbi (shl32 (N.land a 127) mult))); [discriminate|].
-  destruct (_ =? 0).
-  - inversion H; subst. assumption.
+  destruct (N.land a 128 =? 0).
+  - destruct (_ && _); [discriminate|]. inversion H; subst. assumption.
   - eapply IHb; exact H.
 Qed.
 Lemma read_varint_bound : forall b v r, read_varint b = Ok (v, r) -> v <= 268435455.
@@ -148,8 +148,8 @@ Proof.
   induction b; intros vbi mult v r H; cbn [read_vbi] in H; [discriminate|].
   destruct (21 <? mult); [discriminate|].
   destruct (_ <? _); [discriminate|].
-  destruct (_ =? 0).
-  + inversion H; subst. exists [a]. reflexivity.
+  destruct (N.land a 128 =? 0).
+  + destruct (_ && _); [discriminate|]. inversion H; subst. exists [a]. reflexivity.
   + apply IHb in H. destruct H as [pre ->]. exists (a :: pre). reflexivity.
 Qed.
 
@@ -160,8 +160,8 @@ Proof.
   induction b; intros vbi mult v r Hm H; cbn [read_vbi] in H; [discriminate|].
   destruct (N.ltb_spec 21 mult); [discriminate|].
   destruct (_ <? _); [discriminate|]. rewrite len_cons.
-  destruct (_ =? 0).
-  - inversion H; subst. lia.
+  destruct (N.land a 128 =? 0).
+  - destruct (_ && _); [discriminate|]. inversion H; subst. lia.
   - rewrite N.mod_small in H by lia. apply IHb in H; [|lia]. lia.
 Qed.
 Lemma read_varint_four : forall b v r, read_varint b = Ok (v, r) -> len r <= len b /\ len b - len r <= 4.
@@ -227,10 +227,10 @@ Proof.
   rewrite land_128_big by assumption. cbn [N.eqb Pos.eqb].
   rewrite N.mod_small by lia. reflexivity.
 Qed.
-Lemma read_vbi_last : forall b r vbi mult, b < 128 -> mult <= 21 -> vbi < 2 ^ mult ->
+Lemma read_vbi_last : forall b r vbi mult, b < 128 -> mult <= 21 -> vbi < 2 ^ mult -> (b <> 0 \/ mult = 0) ->
   read_vbi (b :: r) vbi mult = Ok (vbi + b * 2 ^ mult, r).
 Proof.
-  intros b r vbi mult Hb Hm Hv. cbn [read_vbi]. replace (21 <? mult) with false by lia.
+  intros b r vbi mult Hb Hm Hv Hmin. cbn [read_vbi]. replace ((b =? 0) && negb (mult =? 0)) with false by lia. replace (21 <? mult) with false by lia.
   rewrite land_127, N.mod_small by assumption.
   unfold shl32. replace (mult <? 32) with true by lia.
   assert (Hs : N.shiftl b mult = b * 2 ^ mult) by apply N.shiftl_mul_pow2.
